@@ -6,7 +6,11 @@ CONFIG = {
     "lean_sources": ["OasisModel/Handlers", "OasisProofs/Helpers/Fees.lean"],
     "regen": [{"kind": "fatalpaths", "out": "FatalPaths.lean"}],
     "generated_obligations": 18,
-    "drivers": [],
+    "drivers": [
+        {"name": "ledgerdrv", "needs_model": False,
+         "quick": ["-spec", "c10", "-cases", "2000", "-blocks", "14"],
+         "thorough": ["-spec", "c10", "-cases", "40000", "-blocks", "20"]},
+    ],
     "trusted_base": [
         "Lean 4.33 kernel; `decide +kernel` for the regenerated ledger",
         "tools/gen/handlerfacts.go (go/ast translation of BeginBlock/EndBlock call trees to Flow) and `errSites` (OasisModel/Handlers/Flow.lean); both executable and small, not verified",
@@ -17,6 +21,6 @@ CONFIG = {
         "a block whose predecessor persisted non-zero fees carries a non-empty last-commit vote list",
         "documented precondition of the property: a validator set can be elected / total voting stake non-zero",
     ],
-    "partial": "Only the fee arithmetic is proved total in Lean; reward, commission, slashing, debonding and tally arithmetic (class M, 35 sites) are tied by the ledger and argued from guards, to be discharged by the C05/C15 models. DeliverTx totality (malformed transactions fail only themselves) and beacon/keymanager/roothash internals (class F) are not in the Lean model; no driver of a live multiplexer is registered for this property yet.",
+    "partial": "Only the fee arithmetic is proved total in Lean; reward, commission, slashing, debonding and tally arithmetic (class M, 35 sites) are tied by the ledger and argued from guards, to be discharged by the C05/C15 models. DeliverTx totality (malformed transactions fail only themselves) and beacon/keymanager/roothash internals (class F) are not in the Lean model; ledgerdrv -spec c10 drives the real staking app's BeginBlock/EndBlock/ExecuteTx on histories with extreme amounts, depleted pools, evidence against unknown validators and coinciding epoch events and reports any fatal error or panic; the other applications are covered by the ledger only.",
     "explanation": "Totality + conservation theorems for fee disbursement; regenerated fatal-path ledger (18 roots, 145 sites).",
 }
